@@ -20,7 +20,7 @@ def isUserTag (s : Str) : Bool := contains Generated.userPrefix s
 def strCfg : Cfg Str Str where
   isTag := isUserTag
   key := cleanUp
-  keep := fun tl l => contains (cleanUp l) tl && contains Generated.userPrefix (cleanUp l)
+  keep := fun tl l => isUserTag l && contains (cleanUp l) tl && contains Generated.userPrefix (cleanUp l)
 
 /-- text-mode iteration over a file: lines keep their `\n`; a last line without one is kept -/
 def splitLinesAux : Str → Str → List Str
